@@ -49,7 +49,16 @@ def run(prop, tier, mod):
         n_miss = sum(1 for r in res if r["status"] == "missed")
         for r in res:
             if r["status"] == "missed":
-                print("SEED-MISSED property=%s %s: a recorded breaking change is no longer reported (checker regression, not a verdict on /repo)" % (prop, r["seed"]))
+                try:
+                    import json as _json
+                    was = _json.load(open(os.path.join(seeds.VERIF, "seeded", r["seed"], "meta.json")))["check_result"]["detected"]
+                except Exception:
+                    was = True
+                r["recorded_as_detected"] = bool(was)
+                if was:
+                    print("SEED-MISSED property=%s %s: a recorded breaking change is no longer reported (checker regression, not a verdict on /repo)" % (prop, r["seed"]))
+                else:
+                    print("SEED-NOT-COVERED property=%s %s: recorded as outside what the rules of this property decide (see seeded/%s/meta.json)" % (prop, r["seed"], r["seed"]))
         print("%s thorough: %d seeded breaking changes re-applied to scratch copies of the current tree: %d detected, %d missed, %d skipped" % (prop, len(res), n_det, n_miss, len(res) - n_det - n_miss))
         extra = {"seeded_changes": res, "seeded_detected": n_det, "seeded_missed": n_miss,
                  "thorough_explanation": "quick analysis plus self-validation: every recorded independently written breaking change of this property (seeded/) is re-applied to a scratch copy of /repo's current working tree, facts are re-extracted and the same rules must report it"}
